@@ -179,4 +179,92 @@ theorem write_denote (base : Str) (prefixes terms : List (Str × Str)) (lbl : β
   rw [h1]
   simpa [emitLists] using h2
 
+/-! ### pattern lemmas: what §7.5 yields for the chaining idioms (also the ones the writer does not use) -/
+
+set_option linter.unusedSimpArgs false
+
+/-- hanging @rel completed by a child without a subject of its own: the processor's blank node (incomplete triples) -/
+theorem hanging_anonymous (C : Ctx) (n : Nat) (a p q c : Str) (S : T)
+    (hinc : C.incomplete = []) (ha : resSCI C.env a = some S)
+    (hp : resTCAs C.env p = [p]) (hq : resTCAs C.env q = [q]) :
+    procNode C [] n (.elem .div { about := some a, rel := some p }
+        [.elem .span { property := some q, content := some c, lang := some [] } []]) =
+      { out := [⟨fresh n, q, .lit c xsdString none⟩, ⟨S, p, fresh n⟩], lm := [], next := n + 1 } := by
+  simp [procNode, procKids, elemLocal, subjStep, filterRel, hinc, orElse, ha, hp, hq, complete, emitLists,
+    propertyValue, plainLit, textOfList, textOf]
+
+/-- chaining: the child names the object and describes it -/
+theorem chaining (C : Ctx) (n : Nat) (a p r q c : Str) (S O : T)
+    (hinc : C.incomplete = []) (ha : resSCI C.env a = some S) (hr : resSCI C.env r = some O)
+    (hp : resTCAs C.env p = [p]) (hq : resTCAs C.env q = [q]) :
+    procNode C [] n (.elem .div { about := some a, rel := some p }
+        [.elem .span { about := some r, property := some q, content := some c, lang := some [] } []]) =
+      { out := [⟨O, q, .lit c xsdString none⟩, ⟨S, p, O⟩], lm := [], next := n + 1 } := by
+  simp [procNode, procKids, elemLocal, subjStep, filterRel, hinc, orElse, ha, hr, hp, hq, complete, emitLists,
+    propertyValue, plainLit, textOfList, textOf]
+
+/-- subject inheritance and text content, language from an ancestor -/
+theorem inherited_subject (C : Ctx) (n : Nat) (a q c l : Str) (S : T) (hl : l ≠ [])
+    (hinc : C.incomplete = []) (ha : resSCI C.env a = some S) (hq : resTCAs C.env q = [q]) :
+    procNode C [] n (.elem .div { about := some a, lang := some l }
+        [.elem .span { property := some q } [.text c]]) =
+      { out := [⟨S, q, .lit c rdfLangString (some l)⟩], lm := [], next := n } := by
+  simp [procNode, procKids, elemLocal, subjStep, filterRel, hinc, orElse, ha, hq, complete, emitLists,
+    propertyValue, plainLit, textOfList, textOf, hl]
+
+/-- @typeof on an element without a subject: a typed blank node that is the object of @property (step 5.1) -/
+theorem typed_bnode_object (C : Ctx) (n : Nat) (a q ty : Str) (S : T)
+    (hinc : C.incomplete = []) (ha : resSCI C.env a = some S) (hq : resTCAs C.env q = [q]) (hty : resTCAs C.env ty = [ty]) :
+    procNode C [] n (.elem .div { about := some a }
+        [.elem .span { property := some q, typeof := some ty } []]) =
+      { out := [⟨fresh n, rdfType, .iri ty⟩, ⟨S, q, fresh n⟩], lm := [], next := n + 1 } := by
+  simp [procNode, procKids, elemLocal, subjStep, filterRel, hinc, orElse, ha, hq, hty, complete, emitLists,
+    propertyValue, plainLit, textOfList, textOf]
+def listItem (p c : Str) : Tree := .elem .span { property := some p, inlist := some [], content := some c, lang := some [] } []
+
+theorem listItem_proc (C : Ctx) (lm : LM) (n : Nat) (p c : Str)
+    (hinc : C.incomplete = []) (hps : C.parentObject = C.parentSubject) (hp : resTCAs C.env p = [p]) :
+    procNode C lm n (listItem p c) = { out := [], lm := lmAdd lm p (.lit c xsdString none), next := n } := by
+  simp [listItem, procNode, procKids, elemLocal, subjStep, filterRel, hinc, orElse, hp, complete, emitLists,
+    propertyValue, plainLit, hps]
+
+theorem listItems_proc (C : Ctx) (lm : LM) (n : Nat) (p : Str) (cs : List Str)
+    (hinc : C.incomplete = []) (hps : C.parentObject = C.parentSubject) (hp : resTCAs C.env p = [p]) :
+    procKids C lm n (cs.map (listItem p)) =
+      { out := [], lm := cs.foldl (fun m c => lmAdd m p (.lit c xsdString none)) lm, next := n } := by
+  induction cs generalizing lm with
+  | nil => simp [procKids]
+  | cons c cs ih => simp [procKids, listItem_proc C lm n p c hinc hps hp, ih]
+
+theorem foldl_lmAdd (p : Str) (xs : List T) (cs : List Str) :
+    cs.foldl (fun m c => lmAdd m p (.lit c xsdString none)) [(p, xs)] = [(p, xs ++ cs.map (fun c => (.lit c xsdString none : T)))] := by
+  induction cs generalizing xs with
+  | nil => simp
+  | cons c cs ih => simp [lmAdd, ih, List.append_assoc]
+
+/-- @inlist: the children's values, in document order, become one RDF collection attached to the element that
+    set the subject (list mapping, step 14) -/
+theorem inlist_collection (C : Ctx) (n : Nat) (a p c : Str) (cs : List Str) (S : T)
+    (hinc : C.incomplete = []) (ha : resSCI C.env a = some S) (hne : S ≠ C.parentSubject)
+    (hp : resTCAs C.env p = [p]) :
+    procNode C [] n (.elem .div { about := some a } ((c :: cs).map (listItem p))) =
+      { out := listCells n ((c :: cs).map (fun c => (.lit c xsdString none : T))) ++ [⟨S, p, fresh n⟩],
+        lm := [], next := n + (c :: cs).length } := by
+  have hbne : (S != C.parentSubject) = true := by simpa using hne
+  have hkid := listItems_proc
+    { env := { base := C.env.base, prefixes := C.env.prefixes, vocab := C.env.vocab, terms := C.env.terms },
+      parentSubject := S, parentObject := S, incomplete := [], lang := C.lang } [] n p (c :: cs) rfl rfl hp
+  simp [procNode, elemLocal, subjStep, filterRel, hinc, orElse, ha, complete, hbne]
+  have hkid' : procKids
+      { env := { base := C.env.base, prefixes := C.env.prefixes, vocab := C.env.vocab, terms := C.env.terms },
+        parentSubject := S, parentObject := S, incomplete := [], lang := C.lang }
+      [] n (listItem p c :: List.map (listItem p) cs) =
+      { out := [], lm := [(p, (.lit c xsdString none : T) :: cs.map (fun c => (.lit c xsdString none : T)))], next := n } := by
+    have := hkid
+    simp only [List.map_cons, List.foldl_cons, lmAdd] at this
+    rw [foldl_lmAdd] at this
+    simpa using this
+  rw [hkid']
+  simp [emitLists]
+
 end RdfModel.Spec.Rdfa
